@@ -161,6 +161,9 @@ type solverSpec struct {
 
 var solvers = []solverSpec{
 	{"z3-new", func(t int) []string { return []string{"z3-new", fmt.Sprintf("-T:%d", t), "-smt2"} }},
+	{"z3-new-ematch", func(t int) []string {
+		return []string{"z3-new", fmt.Sprintf("-T:%d", t), "smt.auto_config=false", "smt.mbqi=false", "-smt2"}
+	}},
 	{"cvc5", func(t int) []string {
 		return []string{"cvc5", fmt.Sprintf("--tlimit=%d", t*1000), "--produce-models", "--lang=smt2", "--finite-model-find"}
 	}},
@@ -243,7 +246,7 @@ func solveFile(file string, timeoutS int, quickOnly bool) solveResult {
 		go func(i int, sp solverSpec) {
 			if i > 0 {
 				select {
-				case <-time.After(time.Duration(700+400*i) * time.Millisecond):
+				case <-time.After(time.Duration(400+400*i) * time.Millisecond):
 				case <-cctx.Done():
 					ch <- solveResult{result: "cancelled", backend: sp.name}
 					return
